@@ -291,6 +291,24 @@ impl<C: Cfg> World<C> {
         }
     }
 
+    /// The operation about to run panics by itself (refused index, capacity exceeded, invalid
+    /// range): injecting a second panic into it would abort the process by language rule, so an
+    /// armed fault is taken back (counted as avoided by construction).
+    pub fn self_panicking_op(&mut self) {
+        if self.fault_mode {
+            let armed = reg(|r| {
+                let a = r.fault_at.is_some() && r.fault_at != Some(u32::MAX);
+                if a {
+                    r.fault_at = None;
+                }
+                a
+            });
+            if armed {
+                self.avoided += 1;
+            }
+        }
+    }
+
     pub fn fresh(&mut self) -> u32 {
         let p = self.next_payload;
         self.next_payload += 1;
@@ -779,6 +797,9 @@ impl<C: Cfg> World<C> {
         let must_panic = idx_bad || cap_bad;
         let why = if idx_bad { "index out of range" } else { "capacity of fixed backend exceeded" };
         let pos = at.unwrap_or(len);
+        if must_panic {
+            self.self_panicking_op();
+        }
         let _ = write!(tr, "{}(v{}{}, src={:?}", opname, v, at.map(|i| format!(", at {}", i)).unwrap_or_default(), src);
         let size = C::T::SIZE;
         match src {
@@ -846,6 +867,9 @@ impl<C: Cfg> World<C> {
                     _ => j >= wlen,
                 };
                 let _ = write!(tr, " from v{}[{}])", w, j);
+                if take_bad && src != Src::HandlePop {
+                    self.self_panicking_op();
+                }
                 let (vec, wv) = self.two(v, w);
                 let r = call(|| match src {
                     Src::HandlePop => {
